@@ -120,7 +120,7 @@ func (g *Gen) weight(kind string) int {
 		if kind == "vote" && voted < need && active > voted {
 			w *= 6
 		}
-	case "registercr", "votecr":
+	case "registercr", "votecr", "votingcr":
 		// same for the first committee election
 		h := k.Height + 1
 		if h >= k.Params.CRConfiguration.CRVotingStartHeight && k.Committee.IsInVotingPeriod(h) {
@@ -136,7 +136,7 @@ func (g *Gen) weight(kind string) int {
 			if kind == "registercr" && len(cands)+len(pend) < n+1 {
 				w *= 6
 			}
-			if kind == "votecr" && voted < n && len(cands) > voted {
+			if (kind == "votecr" || kind == "votingcr") && voted < n && len(cands) > voted {
 				w *= 8
 			}
 		}
